@@ -39,6 +39,11 @@ SpecDelta(q, c) ==
          (IF q = "s0" THEN (IF IdStart(c) THEN "first" ELSE "dead")
           ELSE IF q \in {"first", "in", "dot"} THEN (IF HostLast(c) THEN "in" ELSE IF c = "." THEN "dot" ELSE "dead")
           ELSE "dead")
+    [] Kind = "url-scheme" ->        \* RFC 3986 scheme and its colon: ALPHA *( ALPHA / DIGIT / "+" / "-" / "." ) ":"
+         (IF q = "s0" THEN (IF c \in Letters THEN "run" ELSE "dead")
+          ELSE IF q = "run" THEN (IF c = ":" THEN "in"
+                                  ELSE IF c \in Letters \/ c \in Digits \/ c \in {"+", "-", "."} THEN "run" ELSE "dead")
+          ELSE "dead")
     [] Kind = "config-token" ->      \* a key / section type / section name: no white space, no parentheses
          (IF q \in {"s0", "in"} THEN (IF TokChar(c) THEN "in" ELSE "dead") ELSE "dead")
 SpecAcc(q) == q = "in"
